@@ -293,11 +293,8 @@ fn enumerate(rep: &Report, kinds: &[usize], len: usize, label: &str, keep: &(dyn
         if (len > 1 && o[4] == 1) || !keep(&o) {
             return; // (several steps are always an explicit pipeline: the option would only duplicate programs)
         }
-        if len == 1 && steps[0].modifier >= 2 {
-            // omit_* is meaningless outside a pipeline; for a ONE-step `proj=pipeline` the hand-written
-            // counterpart is debatable (`cart omit_fwd` or `| cart omit_fwd`) — not judged
-            return;
-        }
+        // (a ONE-step pipeline with omit_* is judged too: the step is left out in that direction,
+        // whether the translation is written `cart omit_fwd` or `| cart omit_fwd`)
         let p = PProg { steps, pipeline_inv: o[0] == 1, globals: o[1], plus: o[2] as u8, layout: o[3] as u8, explicit_pipeline: len > 1 || o[4] == 1, mod_first: o[5] == 1 };
         rep.eval(1);
         rep.state(1);
